@@ -44,7 +44,15 @@ fn sh(cmd: &str, args: &[&str]) -> Result<(), String> {
 }
 
 /// users of the generated passwd: (name, uid, primary gid)
-pub const PASSWD: &[(&str, u32, u32)] = &[("root", 0, 0), ("alice", 1001, 100), ("bob", 1002, 100), ("Alice", 1003, 10)];
+pub const PASSWD: &[(&str, u32, u32)] = &[
+    ("root", 0, 0),
+    ("alice", 1001, 100),
+    ("bob", 1002, 100),
+    ("Alice", 1003, 10),
+    // 1004 is deliberately absent ("undefined")
+    ("zo\u{eb}-\u{7528}\u{6237}-\u{1f980}", 1005, 100),
+    ("\u{e9}\u{e9}\u{e9}\u{e9}\u{e9}\u{e9}\u{e9}\u{e9}\u{e9}\u{e9}\u{e9}\u{e9}\u{e9}\u{e9}\u{e9}\u{e9}", 1006, 100),
+];
 /// groups: (name, gid, members)
 pub const GROUP: &[(&str, u32, &[&str])] = &[
     ("root", 0, &[]),
@@ -134,13 +142,16 @@ impl Helpers {
         for (name, args) in specs {
             let exe = format!("{}/bin/{}", RUN_ROOT, name);
             if !std::path::Path::new(&exe).exists() {
-                std::fs::copy("/bin/sleep", &exe).map_err(|e| format!("copy sleep -> {}: {}", exe, e))?;
+                // the harness's own do-nothing helper (accepts any argv); falls back to sleep(1)
+                let mut src = std::env::current_exe().map_err(|e| e.to_string())?;
+                src.set_file_name("vhelper");
+                if src.exists() {
+                    std::fs::copy(&src, &exe).map_err(|e| format!("copy {:?} -> {}: {}", src, exe, e))?;
+                } else {
+                    return Err(format!("helper binary {:?} not built", src));
+                }
             }
             let mut cmd = Command::new(&exe);
-            // sleep accepts several durations and adds them up; extra "arguments" are encoded as 0-length floats is not possible,
-            // so arbitrary argv text goes after a first valid duration through `--` is not supported by sleep either:
-            // we exec with argv[0] = exe and argv[1..] = ["3600"] followed by the generated text only when it is a valid sleep operand.
-            cmd.arg("3600");
             for a in args {
                 cmd.arg(a);
             }
@@ -152,7 +163,7 @@ impl Helpers {
                 });
             }
             let child = cmd.spawn().map_err(|e| format!("spawn {}: {}", exe, e))?;
-            let mut cmdline = format!("{} 3600", exe);
+            let mut cmdline = exe.clone();
             for a in args {
                 cmdline.push(' ');
                 cmdline.push_str(a);
